@@ -1,7 +1,7 @@
 (* Property C05 — bit-parallel batching is sample-wise. *)
 From Coq Require Import String ZArith List Bool Arith.
 From TLX Require Import Model.Bits Model.CLang Model.Netlist Model.GenDense Model.Wrapper.
-From TLX Require Import Proofs.CLangFacts Proofs.WrapperFacts Proofs.HostFacts Proofs.C01Facts.
+From TLX Require Import Proofs.CLangFacts Proofs.WrapperFacts Proofs.HostFacts Proofs.C01Facts Model.Threads Gen.Storage Proofs.ThreadsFacts.
 Import ListNotations.
 
 (* packing: lane r of packed word d is the bit of row r, for every lane including the sign lane r = W-1 *)
@@ -51,9 +51,24 @@ Example C05_example : (* a batch of 3 rows with W = 8 is padded to one word; lan
   /\ pack_word 8 1 (repeat true 8) 0 0 = (-1)%Z.
 Proof. repeat split; vm_compute; reflexivity. Qed.
 
+(* The theorems above treat logic_net as a function of its input word alone.  The wrapper calls it once per machine word on the
+   SAME arrays (inp_temp / out_temp), and the buffers declared inside logic_net are `static __thread` (they keep their contents
+   between calls): for every program that succeeds on fresh memory (C11: all generated programs) the result is the same whatever
+   `out` and the buffers held before - the rows of the previous word, of an earlier batch, of another network's call *)
+Theorem C05_independent_of_earlier_calls : forall (W : Z) (p : prog) (inp out : list Z) (stale : @mem Z),
+  execZ W p inp = Some out ->
+  exists mf, @exec_body Z 0%Z Z.lnot Z.land Z.lor Z.lxor (wrap W) (sizes p)
+               (fun b i => if b =? 0 then nth_error inp i else stale b i) (body p) = Some mf
+             /\ read_all mf 1 (seq 0 (size_of (sizes p) 1)) = Some out.
+Proof. exact (fun W => stale_memory_same_result 0%Z Z.lnot Z.land Z.lor Z.lxor (wrap W)). Qed.
+Theorem C05_buffers_private : private_storage buffer_storage = true.
+Proof. reflexivity. Qed.
+
 Eval compute in "PA:C05_pack_lane"%string. Print Assumptions C05_pack_lane.
 Eval compute in "PA:C05_unpack"%string. Print Assumptions C05_unpack.
 Eval compute in "PA:C05_rowwise"%string. Print Assumptions C05_rowwise.
 Eval compute in "PA:C05_rowwise_dense"%string. Print Assumptions C05_rowwise_dense.
 Eval compute in "PA:C05_in_bounds"%string. Print Assumptions C05_in_bounds.
 Eval compute in "PA:C05_padding"%string. Print Assumptions C05_padding.
+Eval compute in "PA:C05_independent_of_earlier_calls"%string. Print Assumptions C05_independent_of_earlier_calls.
+Eval compute in "PA:C05_buffers_private"%string. Print Assumptions C05_buffers_private.
